@@ -34,13 +34,61 @@ def cases(tier):
         for sm in GM:
             for dt in (("uint8",) if tier == "quick" and len(shp) == 2 else ("uint8", "uint16")):
                 out.append({"name": "%s_%s_%s" % ("x".join(map(str, shp)), sm, dt), "shape": shp, "sym_metric": sm, "dtype": dt, "K": 2 if tier == "quick" else 3})
+    # through the whole pipeline: matched input, the same metrics requested per instance and globally
+    for f in range(9):
+        out.append({"name": "pipeline_1d4_f%d" % f, "what": "pipeline", "shape": (4,), "fix": [f // 3, f % 3], "sym_metric": "DSC", "dtype": "uint8", "K": 2})
     # label values over the whole dtype range (the foreground is 'label != 0', whatever the label)
     for dt in (("uint16",) if tier == "quick" else ("uint16", "uint32", "uint64")):
         out.append({"name": "3_DSC_%s_anylabel" % dt, "shape": (3,), "sym_metric": "DSC", "dtype": dt, "K": min(2 ** 24, 2 ** (8 * int(dt[4:]) // 8)) - 1})
     return out
 
 
+def _run_pipeline(case):
+    from ..twin import get_twin
+    from . import e2e
+    T = get_twin()
+    P = T.panoptica
+    shape = tuple(case["shape"])
+    pv, rv, base = e2e.sym_arrays(shape, case["K"], case["dtype"])
+    base += [pv[0] == case["fix"][0], rv[0] == case["fix"][1]]
+    X = [v != 0 for v in rv]
+    Y = [v != 0 for v in pv]
+    cnt = lambda cs: z3.Sum([z3.If(c, 1, 0) for c in cs])
+    A, B = cnt(X), cnt(Y)
+    I = cnt([z3.And(x, y) for x, y in zip(X, Y)])
+
+    def decode(m):
+        return {"what": "pipeline", "shape": list(shape), "dtype": case["dtype"], "pred": [jsonable(v, m) for v in pv], "ref": [jsonable(v, m) for v in rv], "cfg": None}
+    h = H(PROP, case["name"], decode, replay_kind="pipeline", max_witnesses=30)
+
+    def body():
+        ev = P.Panoptica_Evaluator(expected_input=P.InputType.MATCHED_INSTANCE, instance_metrics=[P.Metric.DSC, P.Metric.IOU], global_metrics=[P.Metric.DSC, P.Metric.IOU])
+        try:
+            res = ev.evaluate(SArr(list(pv), case["dtype"], shape).protect("caller prediction"), SArr(list(rv), case["dtype"], shape).protect("caller reference"), verbose=False)["ungrouped"][0]
+            gd, gi = res.global_bin_dsc, res.global_bin_iou
+        except EngineSignal:
+            raise
+        except WriteToProtected as e:
+            h.fail("no_input_mutation", detail=str(e))
+            return
+        except Exception as e:
+            h.fail("completes", detail="%s: %s" % (type(e).__name__, str(e)[:140]))
+            return
+        if bool(SBool(z3.And(A > 0, B > 0))):
+            for name, v, num, den in (("DSC", gd, 2 * I, A + B), ("IOU", gi, I, A + B - I)):
+                if not isinstance(v, SNum):
+                    h.ok("value_is_metric_of_foregrounds", False, detail={"metric": name, "value": repr(v)})
+                    continue
+                t = z3.ToReal(v.t) if v.t.sort() == z3.IntSort() else v.t
+                h.ok("value_is_metric_of_foregrounds", t * z3.ToReal(den) == z3.ToReal(num), detail={"metric": name, "through": "pipeline"})
+            h.note_nontrivial((str(gd), str(gi), int(e2e.conc(res.tp))))
+        h.witness(expect=None)
+    return explore_case(h, body, base=base, concretize_div=64, time_budget=3000)
+
+
 def run_case(case):
+    if case.get("what") == "pipeline":
+        return _run_pipeline(case)
     from ..twin import get_twin
     T = get_twin()
     MM = T.mod("panoptica.metrics.metrics")
@@ -159,4 +207,24 @@ def real_global(case, mode, expect):
     return {"match": True, "violates": bad is not None, "reason": bad, "observed": obs}
 
 
-REAL = {"global": real_global}
+def real_pipeline(case, mode, expect):
+    import numpy as np
+    from panoptica import Panoptica_Evaluator, InputType, Metric
+    from . import realcommon as RC
+    RC.use_serial_pool(True)
+    shape = tuple(case["shape"])
+    pred = np.array(case["pred"], dtype=case["dtype"]).reshape(shape)
+    ref = np.array(case["ref"], dtype=case["dtype"]).reshape(shape)
+    ev = Panoptica_Evaluator(expected_input=InputType.MATCHED_INSTANCE, instance_metrics=[Metric.DSC, Metric.IOU], global_metrics=[Metric.DSC, Metric.IOU])
+    res = ev.evaluate(pred.copy(), ref.copy(), verbose=False)["ungrouped"][0]
+    A, B = int((ref != 0).sum()), int((pred != 0).sum())
+    I = int(((ref != 0) & (pred != 0)).sum())
+    bad = None
+    if A > 0 and B > 0:
+        for name, got, want in (("dsc", res.global_bin_dsc, Fraction(2 * I, A + B)), ("iou", res.global_bin_iou, Fraction(I, A + B - I))):
+            if got is None or not close(float(got), float(want), 1e-12):
+                bad = "value_is_metric_of_foregrounds: global_bin_%s=%r through the pipeline, foregrounds give %s (pred %s ref %s)" % (name, got, want, pred.tolist(), ref.tolist())
+    return {"match": True, "violates": bad is not None, "reason": bad, "observed": None}
+
+
+REAL = {"global": real_global, "pipeline": real_pipeline}
